@@ -233,8 +233,12 @@ def run_case(cfg):
             arr, p, cur = _axis_arrays(g, ax["name"])
             draw.append(dict(cur=cur, order=regs[a].ids(arr)))
         nb0 = int(g.rar_iter_nb)
-        _, _, g = trigger_rar(i, loss, params, g, rt, rf)
-        jax.effects_barrier()
+        try:
+            _, _, g = trigger_rar(i, loss, params, g, rt, rf)
+            jax.effects_barrier()
+        except Exception as ex:  # the code under test raised: a datum, not a failure of the driver
+            tr["codeexc"] = f"{type(ex).__name__}: {str(ex)[:160]}"
+            return tr
         hook = [e for e in _verif.drain() if e["kind"] == "rar_step"]
         stepped = int(g.rar_iter_nb) != nb0
         after, pairs = [], []
@@ -293,8 +297,12 @@ def _run_solve(cfg, g, loss, params, axes, rexact, lo, hi):
             reg.add(r)
         regs.append(reg)
     _verif.drain()
-    out = jinns.solve(n_iter=cfg["iters"], init_params=params, data=g, loss=loss, optimizer=optax.sgd(0.0), verbose=False)
-    jax.effects_barrier()
+    try:
+        out = jinns.solve(n_iter=cfg["iters"], init_params=params, data=g, loss=loss, optimizer=optax.sgd(0.0), verbose=False)
+        jax.effects_barrier()
+    except Exception as ex:  # noqa
+        tr["codeexc"] = f"{type(ex).__name__}: {str(ex)[:160]}"
+        return tr
     evs = _verif.drain()
     init = [e for e in evs if e["kind"] == "solve_init"]
     if len(init) != 1:
